@@ -217,6 +217,11 @@ func runC04(c *core.Ctx) {
 				want0, want1 = newR, oldR
 			}
 			c.Check(a0 == want0 && a1 == want1, "limit-from-own-route", f.Name()+" diff operands", call.Pos(), "PathsDiff operands are swapped or not (old top-N, new top-N): the wrong set is withdrawn/announced")
+			for i, a := range call.Args {
+				se, isSlice := core.Unparen(a).(*ast.SliceExpr)
+				c.Check(isSlice && se.High != nil, "limit-from-own-route", fmt.Sprintf("%s diff operand %d is limited to the client's top-N", f.Name(), i), a.Pos(),
+					"an operand of the path diff is the route's whole path list instead of its first N paths: a path that dropped out of the client's window but is still in the Loc-RIB is never withdrawn (or a path outside the window is announced)")
+			}
 		}
 		for _, call := range clientCalls(f, spec.method) {
 			// path argument is the range variable over the PathsDiff result; prefix from the matching route
